@@ -34,7 +34,8 @@ func (m *machine) parse(op string, s M) any {
 		err := m.reg(s, "z").UnmarshalText([]byte(text))
 		r["ok"] = err == nil
 	case "UnmarshalJSON":
-		err := json.Unmarshal([]byte(text), m.reg(s, "z"))
+		q, _ := json.Marshal(text) // the literal as a JSON string
+		err := json.Unmarshal(q, m.reg(s, "z"))
 		r["ok"] = err == nil
 	case "ParseDecimal":
 		m.reg(s, "z")
